@@ -26,11 +26,13 @@
 (*                       ended is returned by Get; Resolve answers such a   *)
 (*                       question from the cache and sends no upstream      *)
 (*                       query (the instant lifetime = age is either)       *)
-(*    TtlAged            the TTL of a record served from the cache does not *)
-(*                       exceed the lifetime the entry has left (so it      *)
-(*                       decreases with time and respects the maximum TTL). *)
-(*                       The package nowhere says that it rewrites TTLs     *)
-(*                       (RFC 1035 4.1.3 / RFC 2181 8 do): separate clause  *)
+(*    TtlAged            the TTL of a record served from the cache is at    *)
+(*                       most the TTL the upstream gave that record (or the *)
+(*                       minimum TTL, if that is larger) minus the time the *)
+(*                       entry has spent in the cache: it decreases with    *)
+(*                       time.  The package nowhere says that it rewrites   *)
+(*                       TTLs (RFC 1035 3.2.1/4.1.3, RFC 2181 8 do):        *)
+(*                       separate clause                                    *)
 (* S2 "Cache is an LRU cache" / CacheSize "Max cache entries" / "Evict if   *)
 (*    at capacity" / "evictOldest removes the least recently used entry":   *)
 (*    Capacity           the cache never holds more than its capacity       *)
@@ -102,11 +104,13 @@ LastOf(s)  == s[Len(s)]
 \*        qname (question -> name index), qaddr (question -> is it an A/AAAA question), keycheck, ...]
 \* ghost
 \*   e[k]   what was last stored for question/key k: rem = lifetime left in units (-1: ended, 0: ends now),
-\*          val = data version, rc = response code it is served with; meaningful while k is in lru
+\*          lim = the largest TTL (units) a record of it may still be served with (largest upstream record TTL or the
+\*          minimum TTL, minus the time since), val = data version, rc = response code it is served with; meaningful
+\*          while k is in lru
 \*   lru    the keys held, most recently used first
 \*   rr     the upstream that got the last upstream query (0: none yet)
 \*   wall   clients in the walled garden        block  names with a block rule
-None == [rem |-> 0, val |-> 0, rc |-> 0]
+None == [rem |-> 0, lim |-> 0, val |-> 0, rc |-> 0]
 G0(cfg) == [e |-> [k \in 1..cfg.nk |-> None], lru |-> <<>>, rr |-> 0, wall |-> {}, block |-> {}]
 
 Clamp(cfg, t) == IF t < cfg.min THEN cfg.min ELSE IF t > cfg.max THEN cfg.max ELSE t
@@ -114,12 +118,12 @@ Clamp(cfg, t) == IF t < cfg.min THEN cfg.min ELSE IF t > cfg.max THEN cfg.max EL
 Held(g, k) == k \in Range(g.lru)
 
 \* time passes first: the ghost as it is when the call's effects are judged
-Aged(g, dt) == [g EXCEPT !.e = [k \in DOMAIN g.e |-> [g.e[k] EXCEPT !.rem = Max2(@ - dt, -1)]]]
+Aged(g, dt) == [g EXCEPT !.e = [k \in DOMAIN g.e |-> [g.e[k] EXCEPT !.rem = Max2(@ - dt, -1), !.lim = Max2(@ - dt, 0)]]]
 
 Gone(e) == Range(e.gone)
 
 \* ---- what the upstream script hands back (resolver) ---------------------------------------------
-\* scripts: ok (NOERROR, records with data version val, minimum TTL ttl), nx (NXDOMAIN, no records), nxc (NXDOMAIN with
+\* scripts: ok (NOERROR, two records with data version val and TTLs ttl + 2 and ttl units), nx (NXDOMAIN, no records), nxc (NXDOMAIN with
 \* a CNAME record, TTL ttl), nodata (NOERROR, no records), sf (SERVFAIL), junk (unparsable), spoofid / spoofq (a datagram
 \* with a wrong id / another question and poison data, then the genuine ok answer)
 Genuine(e) ==
@@ -132,6 +136,8 @@ Genuine(e) ==
     [] e.s = "sf" -> [rc |-> 2, val |-> 0]
     [] OTHER -> [rc |-> -1, val |-> -1]
 
+TopTtl(e) == IF e.s = "nxc" THEN e.ttl ELSE e.ttl + 2      \* the largest record TTL of the genuine answer, in units
+
 MustStore(e) == ~e.err /\ e.s \in {"ok", "spoofid", "spoofq", "nx"}
 MayStore(e)  == ~e.err /\ e.s \in {"nxc", "nodata"}
 
@@ -142,12 +148,12 @@ Forwarded(cfg, g, e)  == e.op = "q" /\ ~Overridden(cfg, g, e) /\ ~e.hit
 
 \* the key this call stores and the entry the documentation gives it (<<>> if it stores nothing)
 Stores(cfg, g, e) ==
-  IF e.op = "set" THEN <<[k |-> e.k, ent |-> [rem |-> Clamp(cfg, e.ttl), val |-> e.val, rc |-> 0]]>>
-  ELSE IF e.op = "neg" THEN <<[k |-> e.k, ent |-> [rem |-> cfg.neg, val |-> 0, rc |-> 3]]>>
+  IF e.op = "set" THEN <<[k |-> e.k, ent |-> [rem |-> Clamp(cfg, e.ttl), lim |-> Max2(e.ttl, cfg.min), val |-> e.val, rc |-> 0]]>>
+  ELSE IF e.op = "neg" THEN <<[k |-> e.k, ent |-> [rem |-> cfg.neg, lim |-> 0, val |-> 0, rc |-> 3]]>>
   ELSE IF Forwarded(cfg, g, e) /\ (MustStore(e) \/ (MayStore(e) /\ e.stored)) THEN
-       <<[k |-> e.k, ent |-> IF e.s = "nx" THEN [rem |-> cfg.neg, val |-> 0, rc |-> 3]
-                             ELSE IF e.s = "nodata" THEN [rem |-> cfg.max, val |-> 0, rc |-> 0]
-                             ELSE [rem |-> Clamp(cfg, e.ttl), val |-> Genuine(e).val, rc |-> Genuine(e).rc]]>>
+       <<[k |-> e.k, ent |-> IF e.s = "nx" THEN [rem |-> cfg.neg, lim |-> 0, val |-> 0, rc |-> 3]
+                             ELSE IF e.s = "nodata" THEN [rem |-> cfg.max, lim |-> 0, val |-> 0, rc |-> 0]
+                             ELSE [rem |-> Clamp(cfg, e.ttl), lim |-> Max2(TopTtl(e), cfg.min), val |-> Genuine(e).val, rc |-> Genuine(e).rc]]>>
   ELSE <<>>
 
 \* ---- S2: capacity and eviction ------------------------------------------------------------------
@@ -194,7 +200,7 @@ QueryClauses(cfg, g, e) ==
   ELSE IF e.hit THEN
        Content(cfg, g, e, e.aval, e.rc)
   \cup (IF e.ups # <<>> THEN {"ServedWhileFresh"} ELSE {})
-  \cup (IF Held(g, e.k) /\ e.aval \notin {0, 9} /\ e.attl > Max2(g.e[e.k].rem, 0) * cfg.unit THEN {"TtlAged"} ELSE {})
+  \cup (IF Held(g, e.k) /\ e.aval \notin {0, 9} /\ e.attl > g.e[e.k].lim * cfg.unit THEN {"TtlAged"} ELSE {})
   ELSE
        (IF Held(g, e.k) /\ g.e[e.k].rem > 0 THEN {"ServedWhileFresh"} ELSE {})
   \cup (IF ~e.err /\ e.aval = 9 THEN {"NoPoison"} ELSE {})
